@@ -3,6 +3,8 @@
 package generator
 
 import (
+	"encoding/json"
+
 	"github.com/atombender/go-jsonschema/internal/zzvrt"
 	"github.com/atombender/go-jsonschema/pkg/schemas"
 )
@@ -78,6 +80,10 @@ func zzAnyPtr(v any) *any { return &v }
 // zzNumericShape draws one of the bound shapes used at L3 (the L1/L2 kernels cover all 36
 // presence/kind combinations; here the point is attachment and wiring).
 func zzNumericShape(t *schemas.Type, s *zzSpec) {
+	if zzvrt.Param("PARSEDBOUNDS", 0) == 1 {
+		zzParsedBounds(t, s)
+		return
+	}
 	f := func() *float64 { v := zzvrt.Float64(); return &v }
 	if zzvrt.Param("BOUNDCONST", 0) == 1 {
 		// stated bounds whose decimal text needs many digits, an exponent, or both
@@ -453,4 +459,57 @@ func zzCloneDefs(m map[string]*schemas.Type) map[string]*schemas.Type {
 		out[k] = zzCloneType(v)
 	}
 	return out
+}
+
+// zzSchemaKeywords: every keyword the parser knows (pkg/schemas ObjectAsType and the legacy pass).
+var zzSchemaKeywords = []string{"$schema", "$ref", "multipleOf", "maximum", "exclusiveMaximum", "minimum", "exclusiveMinimum",
+	"maxLength", "minLength", "pattern", "additionalItems", "items", "maxItems", "minItems", "uniqueItems",
+	"maxProperties", "minProperties", "required", "properties", "patternProperties", "additionalProperties",
+	"enum", "type", "allOf", "anyOf", "oneOf", "not", "title", "description", "default", "format", "media",
+	"binaryEncoding", "dependentRequired", "$defs", "dependentSchemas", "goJSONSchema",
+	"dependencies", "definitions", "$id", "id"}
+
+// zzParsedBounds: the bound keywords of a number/integer schema arrive as a symbolic SCHEMA
+// DOCUMENT -- minimum and maximum absent or a number, exclusiveMinimum and exclusiveMaximum
+// absent, a boolean (draft 4) or a number (draft 6+), in every mixture -- and go through the
+// REAL Type.UnmarshalJSON; what the generator gets is what the parser made of them, while the
+// reference model's spec is read off the document itself.
+func zzParsedBounds(t *schemas.Type, s *zzSpec) {
+	d := zzvrt.NewDoc()
+	zzvrt.Assume(zzvrt.Not(zzvrt.DMalformed(d)))
+	zzvrt.Assume(zzvrt.DIs(d, "", zzvrt.KObject))
+	for _, k := range zzSchemaKeywords {
+		switch k {
+		case "minimum", "maximum":
+			zzvrt.Assume(zzvrt.Or(zzvrt.DIs(d, k, zzvrt.KAbsent), zzvrt.DIs(d, k, zzvrt.KNumber)))
+		case "exclusiveMinimum", "exclusiveMaximum":
+			zzvrt.Assume(zzvrt.Or(zzvrt.DIs(d, k, zzvrt.KAbsent), zzvrt.Or(zzvrt.DIs(d, k, zzvrt.KNumber), zzvrt.DIs(d, k, zzvrt.KBool))))
+		default:
+			zzvrt.Assume(zzvrt.DIs(d, k, zzvrt.KAbsent))
+		}
+	}
+	var pt schemas.Type
+	if err := json.Unmarshal(zzvrt.DocBytes(d, ""), &pt); err != nil {
+		zzvrt.Note("parser: " + err.Error())
+		zzvrt.Check("C05.L3.bound-keywords-parse", false)
+		zzvrt.Assume(false)
+	}
+	num := func(k string) *float64 {
+		if zzvrt.DIs(d, k, zzvrt.KNumber) {
+			v := zzvrt.DFloat(d, k)
+			return &v
+		}
+		return nil
+	}
+	excl := func(k string) *any {
+		if zzvrt.DIs(d, k, zzvrt.KBool) {
+			return zzAnyPtr(zzvrt.DBool(d, k))
+		}
+		if p := num(k); p != nil {
+			return zzAnyPtr(*p)
+		}
+		return nil
+	}
+	s.min, s.max, s.exMin, s.exMax = num("minimum"), num("maximum"), excl("exclusiveMinimum"), excl("exclusiveMaximum")
+	t.Minimum, t.Maximum, t.ExclusiveMinimum, t.ExclusiveMaximum = pt.Minimum, pt.Maximum, pt.ExclusiveMinimum, pt.ExclusiveMaximum
 }
